@@ -938,7 +938,7 @@ func accessProfile(name string, over map[string]int, acc map[string]int) *Profil
 func init() {
 	register(&SimProp{
 		ID: "C04",
-		Profiles: []*Profile{accessProfile("c04-read", map[string]int{"get": 10, "httpget": 6, "new": 3},
+		Profiles: []*Profile{accessProfile("c04-read", map[string]int{"get": 10, "httpget": 6, "new": 3, "deleteburst": 6},
 			map[string]int{"grant": 10, "getonly": 4, "deny": 6, "denied": 3, "err": 3, "timeout": 2, "noresult": 2, "noresp": 1, "callonly": 2})},
 		Config:   accessConfig,
 		Monitors: func() []Monitor { return []Monitor{NewMonC04()} },
@@ -947,7 +947,7 @@ func init() {
 	register(&SimProp{
 		ID: "C05",
 		Profiles: []*Profile{func() *Profile {
-			p := accessProfile("c05-call", map[string]int{"trigburst": 8, "call": 26, "new": 5, "httppost": 7, "auth": 4, "subscribe": 12, "mutate": 8},
+			p := accessProfile("c05-call", map[string]int{"trigburst": 8, "deleteburst": 5, "call": 26, "new": 5, "httppost": 7, "auth": 4, "subscribe": 12, "mutate": 8},
 				map[string]int{"grant": 6, "calllist": 12, "callonly": 3, "deny": 2, "denied": 2, "err": 1, "timeout": 1})
 			// a comma is a valid character of a method name: such a method is an
 			// entry of no list, also not of the list it spells
